@@ -41,7 +41,7 @@ pub fn plan(data: &[u8], max_iter: usize, max_keep: usize) -> AllocPlan {
     for _ in 0..k {
         kinds.push(rd.below(KINDS));
     }
-    let retained_kind = rd.below(6);
+    let retained_kind = rd.below(7);
     let burst = if rd.chance(1, 3) { 500 + rd.below(6000) } else { 0 };
     AllocPlan { iterations, keep, kinds, retained_kind, burst }
 }
@@ -140,6 +140,34 @@ fn retained(kind: usize) -> Expr {
         2 => Expr::invoke(v("Node"), "new", vec![v("i")]),
         3 => lam("lambda-4", &[], v("i")),
         4 => Expr::MapLit(vec![(v("i"), v("i"))], ln()),
+        6 => {
+            // a fiber run to completion by another fiber, which looked at the previously kept one:
+            // a finished fiber must not keep its caller (and through it every earlier one) alive
+            let inner = Expr::Lambda(Rc::new(FnDef {
+                name: RefCell::new("lambda-6".to_string()),
+                params: vec![],
+                body: Body::Expr(Box::new(n(1.0))),
+                kind: FnKind::Lambda,
+            }));
+            let prev_index = Expr::bin(
+                BinOp::Mod,
+                Expr::bin(BinOp::Sub, Expr::bin(BinOp::Add, v("i"), Expr::invoke(v("keep"), "len", vec![])), n(1.0)),
+                Expr::invoke(v("keep"), "len", vec![]),
+            );
+            let outer = Expr::Lambda(Rc::new(FnDef {
+                name: RefCell::new("lambda-5".to_string()),
+                params: vec![],
+                body: Body::Block(vec![
+                    Stmt::var("prev", Some(Expr::index(v("keep"), prev_index))),
+                    Stmt::var("scratch", Some(Expr::VecLit(vec![v("i"), v("prev")]))),
+                    Stmt::var("inner", Some(Expr::invoke(v("Fiber"), "new", vec![inner]))),
+                    Stmt::expr(Expr::invoke(v("inner"), "call", vec![])),
+                    Stmt::new(StmtKind::Return(Some(v("inner")))),
+                ]),
+                kind: FnKind::Lambda,
+            }));
+            Expr::invoke(Expr::invoke(v("Fiber"), "new", vec![outer]), "call", vec![])
+        }
         _ => Expr::get(Expr::invoke(v("Node"), "new", vec![v("i")]), "get"),
     }
 }
